@@ -94,7 +94,7 @@ def check_guarded_resolve(ctx, rule, only_module=None, skip_module=None):
         for n in nodes:
             verdicts = []
             for c in classes:
-                for p in ctx.paths(f, c, exc=()):
+                for p in ctx.paths(f, c, exc=(), inline_depth=2):
                     for e in p.events:
                         if e.kind == 'call' and e.node is n and e.depth == 1:
                             verdicts.append(_guarded(p, e))
